@@ -42,7 +42,7 @@ Fixpoint qs (s : stmt) (loc : list nat) : option (list nat) :=
       match qb b [] with Some [] => Some loc | _ => None end
   | SLoopUntil _ _ b _ _ cl =>
       match qb b [], qb cl [] with Some [], Some [] => Some loc | _, _ => None end
-  | SEpr _ _ | SFlush | SNewArray _ _ _ | SNewReg _ _ | SUAdd _ _ _ => None
+  | SEpr _ _ | SFlush | SNewArray _ _ _ | SNewReg _ _ | SUAdd _ _ _ | SFutAddX _ _ _ _ _ | SMeasFutX _ _ _ _ _ => None
   | _ => Some loc
   end
 with qb (b : block) (loc : list nat) : option (list nat) :=
@@ -86,7 +86,7 @@ Fixpoint wfs (s : stmt) : bool :=
   | SForeach _ _ _ b => wf_body b && bnoreg b && bwfs b
   | SLoopUntil _ mx b _ _ cl =>
       wf_body b && wf_body cl && bwfs b && bwfs cl && bnoreg cl && (Z.ltb 0 mx || bnoreg b) && emits b
-  | SEpr _ _ | SFlush | SNewReg _ _ | SUAdd _ _ _ => false
+  | SEpr _ _ | SFlush | SNewReg _ _ | SUAdd _ _ _ | SFutAddX _ _ _ _ _ | SMeasFutX _ _ _ _ _ => false
   | _ => true
   end
 with bwfs (b : block) : bool :=
